@@ -15,7 +15,7 @@ NPROCS=${2:-30}
 fail=0
 echo "== static scan: map iteration / sync.Map in decision or log paths"
 grep -n "sync\.Map\|\.Range(func" -r keysim core consim cmd --include=*.go && { echo "sync.Map found"; fail=1; }
-go build -tags verif -o bin/keysim ./cmd/keysim || exit 2
+go build -tags "verif verifauth verifwots" -o bin/keysim ./cmd/keysim || exit 2
 T=$(mktemp -d /tmp/verif-det-XXXXXX)
 trap 'rm -rf "$T"' EXIT
 echo "== keysim: $NSEEDS seeds x 4 properties x $NPROCS processes"
